@@ -376,3 +376,108 @@ def dataset_lookup(pre: List[int], k: int, isgroup: bool, k2: int, meta: int) ->
     post: _
     """
     return _dataset_step(pre, 7, k, isgroup, k2, meta)
+
+
+def _history_state(pre, n0, rem_mask, use_pop, read_shape):
+    """A pre-state reached THROUGH THE PUBLIC API: insert the keys of `pre` (all of length n0), optionally read
+    .shape, then remove the keys selected by rem_mask with pop() or del.  Hidden state (caches ...) is whatever
+    the implementation made of that history."""
+    dg = Datagroup()
+    model = {}
+    for p in pre:
+        v = Val(n0)
+        dg[KEYS[p]] = v
+        model[KEYS[p]] = v
+    if read_shape:
+        if dg.shape != ((n0,) if model else ()):
+            return None, None
+    for i, p in enumerate(pre):
+        if (rem_mask // (2 ** i)) % 2 == 1:
+            if use_pop:
+                dg.pop(KEYS[p])
+            else:
+                del dg[KEYS[p]]
+            del model[KEYS[p]]
+    return dg, model
+
+
+def _set_after_history(pre, n0, r0, r1, use_pop, read_shape, k, n):
+    rem_mask = (1 if r0 else 0) + (2 if r1 else 0)
+    dg, model = _history_state(pre, n0, rem_mask, use_pop, read_shape)
+    if dg is None:
+        return False
+    if dg.shape != ((n0,) if model else ()):
+        return False
+    key = KEYS[k]
+    v = Val(n)
+    try:
+        dg[key] = v
+        ok = True
+    except ValueError:
+        ok = False
+    if ok != ((not model) or n == n0):
+        return False
+    if ok:
+        model[key] = v
+    return _same(dg, model) and len(set(x.shape for x in dg.values())) <= 1
+
+
+def datagroup_set_after_pop_history_shape(pre: List[int], n0: int, r0: bool, r1: bool, k: int, n: int) -> bool:
+    """
+    pre: len(pre) <= 2 and all(0 <= p <= 2 for p in pre) and len(set(pre)) == len(pre)
+    pre: 1 <= n0 <= 2 and 1 <= n <= 2 and 0 <= k <= 2
+    post: _
+    """
+    return _set_after_history(pre, n0, r0, r1, True, True, k, n)
+
+
+def datagroup_set_after_pop_history_noshape(pre: List[int], n0: int, r0: bool, r1: bool, k: int, n: int) -> bool:
+    """
+    pre: len(pre) <= 2 and all(0 <= p <= 2 for p in pre) and len(set(pre)) == len(pre)
+    pre: 1 <= n0 <= 2 and 1 <= n <= 2 and 0 <= k <= 2
+    post: _
+    """
+    return _set_after_history(pre, n0, r0, r1, True, False, k, n)
+
+
+def datagroup_set_after_del_history_shape(pre: List[int], n0: int, r0: bool, r1: bool, k: int, n: int) -> bool:
+    """
+    pre: len(pre) <= 2 and all(0 <= p <= 2 for p in pre) and len(set(pre)) == len(pre)
+    pre: 1 <= n0 <= 2 and 1 <= n <= 2 and 0 <= k <= 2
+    post: _
+    """
+    return _set_after_history(pre, n0, r0, r1, False, True, k, n)
+
+
+def datagroup_set_after_del_history_noshape(pre: List[int], n0: int, r0: bool, r1: bool, k: int, n: int) -> bool:
+    """
+    pre: len(pre) <= 2 and all(0 <= p <= 2 for p in pre) and len(set(pre)) == len(pre)
+    pre: 1 <= n0 <= 2 and 1 <= n <= 2 and 0 <= k <= 2
+    post: _
+    """
+    return _set_after_history(pre, n0, r0, r1, False, False, k, n)
+
+
+def datagroup_clear_then_set(pre: List[int], n0: int, how: int, k: int, n: int) -> bool:
+    """
+    pre: 1 <= len(pre) <= 3 and all(0 <= p <= 2 for p in pre) and len(set(pre)) == len(pre)
+    pre: 1 <= n0 <= 2 and 1 <= n <= 2 and 0 <= how <= 2 and 0 <= k <= 2
+    post: _
+    """
+    dg = Datagroup()
+    for p in pre:
+        dg[KEYS[p]] = Val(n0)
+    if how == 0:
+        dg.clear()
+    elif how == 1:
+        for p in pre:
+            dg.pop(KEYS[p])
+    else:
+        c = dg.copy()
+        for p in pre:
+            del dg[KEYS[p]]
+        if len(c) != len(pre):
+            return False
+    v = Val(n)
+    dg[KEYS[k]] = v            # an emptied group accepts any shape
+    return list(dg.keys()) == [KEYS[k]] and dg.shape == (n,) and dg[KEYS[k]] is v and v.name == KEYS[k]
